@@ -133,6 +133,7 @@ type LoadBalancer struct {
 	ctx              context.Context
 	cancel           context.CancelFunc
 	healthCheckWg    sync.WaitGroup
+	healthLoopWg     sync.WaitGroup // the active health check loop itself
 	wsPool           *WebSocketPool
 }
 
@@ -292,7 +293,11 @@ func (lb *LoadBalancer) setupCircuitBreaker(cfg *config.Config) {
 
 func (lb *LoadBalancer) startHealthChecks() {
 	if lb.healthChecks.activeEnabled {
-		go lb.startActiveHealthChecks()
+		lb.healthLoopWg.Add(1)
+		go func() {
+			defer lb.healthLoopWg.Done()
+			lb.startActiveHealthChecks()
+		}()
 		logging.L().Info().Dur("interval", lb.healthChecks.activeInterval).Msg("active health checks enabled")
 	} else {
 		logging.L().Info().Msg("active health checks disabled")
@@ -833,6 +838,9 @@ func (rw *responseWriter) Hijack() (net.Conn, *bufio.ReadWriter, error) {
 func (lb *LoadBalancer) Stop() {
 	logging.L().Info().Msg("shutting down load balancer")
 	lb.cancel()
+	// Wait for the health check loop first: while it is still registering probes
+	// (healthCheckWg.Add) a concurrent Wait on that group is a WaitGroup misuse
+	lb.healthLoopWg.Wait()
 	lb.healthCheckWg.Wait()
 
 	// Shutdown WebSocket pool if enabled
